@@ -189,8 +189,14 @@ fn crash_in_early_flush(history: u8, c: u32, periodic: bool) {
         Ok(wb) => {
             assert!(wb.store == k || (history == 1 && wb.store == 1 && !done),
                 "C10: the next start recovers the last completed flush or the one in progress, never an older snapshot");
-            assert!(wb.applied_gg && wb.applied_gg_id == wb.store + 3 && wb.applied_lw && wb.applied_lw_id == wb.store + 6,
-                "C10: the grave goods and last wills applied are those of the SAME snapshot as the store");
+            let same = wb.applied_gg && wb.applied_gg_id == wb.store + 3 && wb.applied_lw && wb.applied_lw_id == wb.store + 6;
+            if history == 0 {
+                // recorded open finding (known_findings.json): a kill inside the FIRST flush ever, after the store files and
+                // before the grave goods / last will files are complete, restores the store of that flush WITHOUT registrations
+                assert!(same, "[KF-C10-first-flush-store-without-registrations] C10: the grave goods and last wills applied are those of the SAME snapshot as the store");
+            } else {
+                assert!(same, "C10: the grave goods and last wills applied are those of the SAME snapshot as the store");
+            }
             core::mem::forget(wb);
         }
         Err(e) => {
